@@ -188,6 +188,48 @@ pub fn ultra_fine(prop: &'static str, seed: u64, index: u64) -> Scenario {
     scn
 }
 
+/// Lattice angles: SO(2), samples scripted over multiples of pi/4, step and connection radius
+/// longer than half a turn, RRT-Connect or PRM (whose goal-tree edges / links are traversed
+/// against the direction they were checked in). End points exactly half a turn apart — where the
+/// shortest path is not unique and only the space's interpolation says which way round a
+/// motion goes — are then frequent.
+pub fn so2_lattice(prop: &'static str, seed: u64, index: u64) -> Scenario {
+    let mut rng2 = Xo::new(mix(seed, "so2-lattice", index));
+    let kind = *rng2.pick(&[PlannerKind::RRTConnect, PlannerKind::PRM]);
+    let o2 = GenOpts { planner: Some(kind), families: vec!["open"], space_kinds: vec!["SO2"], max_iters: 4, min_frac: 0.05, goal_sampler: Some(GoalSampler::Fixed), canonical_only: true, library_metric: true, ..Default::default() };
+    let mut scn = gen::base(&mut rng2, prop, seed, index, &o2);
+    scn.space = SpaceSpec::SO2 { bounds: None, frac: 0.05 };
+    let lattice: Vec<f64> = (-4..4).map(|k| k as f64 * std::f64::consts::PI / 4.0).collect();
+    let s = *rng2.pick(&lattice);
+    let mut t = *rng2.pick(&lattice);
+    if t == s {
+        t = lattice[(lattice.iter().position(|x| *x == s).unwrap() + 3) % 8];
+    }
+    scn.problems[0].starts[0] = vec![s];
+    scn.problems[0].goal.target = vec![t];
+    scn.problems[0].goal.radius = 0.05;
+    scn.problems[0].goal.comp = None;
+    scn.problems[0].space = None;
+    // one forbidden arc between two lattice points, so that paths take several hops
+    let c = *rng2.pick(&lattice) + std::f64::consts::PI / 8.0;
+    scn.worlds[0].obstacles = vec![Obstacle::Ball { c: vec![c], r: 0.2 }];
+    scn.planner.max_distance = 4.0;
+    scn.planner.search_radius = 4.0;
+    scn.planner.connection_radius = 4.0;
+    scn.planner.goal_bias = 0.0;
+    scn.params.insert("ext".into(), std::f64::consts::PI);
+    let n = rng2.usize_in(5, 14);
+    scn.sampling.script = (0..n).map(|_| vec![*rng2.pick(&lattice)]).collect();
+    scn.clock = ClockSpec { tick_ns: 1000, cost_valid: vec![], cost_sample: vec![], cost_goal: vec![] };
+    scn.calls = if kind == PlannerKind::PRM {
+        vec![CallSpec::Setup { problem: 0 }, gen::construct_call(n as u64), CallSpec::Solve { timeout_ns: 1_000_000_000_000, stalls: vec![] }]
+    } else {
+        vec![CallSpec::Setup { problem: 0 }, solve_budget(n as u64)]
+    };
+    scn.family = "so2_lattice".into();
+    scn
+}
+
 /// Harvest history: the goal region is the whole space, so every solve returns the branch of the
 /// node it has just added; a long history of solves on the kept tree puts (nearly) every tree
 /// edge — extension, choose-parent and REWIRED edges with descendants — on some returned path.
@@ -338,6 +380,9 @@ impl Check for PathProp {
         }
         if self.id == "C03" && index % 2003 == 11 {
             return ultra_fine(self.id, seed, index);
+        }
+        if self.id == "C03" && index % 50 == 23 {
+            return so2_lattice(self.id, seed, index);
         }
         if (matches!(self.id, "C01" | "C04" | "C05") && index % 16 == 9) || (self.id == "C03" && index % 64 == 9) {
             // PRM harvest (see evaluate): setup, construct, solve; the queries for every
